@@ -239,7 +239,7 @@ def run_probes(target):
             lines = f.read().split("\n", 1)
         if lines[0].strip() != "0":
             failed.append({"name": pr["name"], "code": pr["code"], "define": pr.get("define"),
-                           "what": pr.get("what", pr["name"]),
+                           "what": pr.get("what", pr["name"]), "optional": bool(pr.get("optional")),
                            "output": lines[1] if len(lines) > 1 else ""})
     return failed
 
